@@ -46,18 +46,13 @@ class Ctx:
     def old_field(self, obj: VScalar, name: str) -> V:
         key = self.eng.field_owner(obj.ty.name, name)
         if key not in self.old_heap:
-            # never touched before the snapshot: current == old unless written since; materialise in both
-            hf = self.eng.heap_field(self.st, obj.ty.name, name)
-            self.old_heap[key] = HeapField(hf.ty, list(hf.parts), hf.template)
+            raise RuntimeError("heap field %s.%s missing from the entry snapshot" % key)
         hf = self.old_heap[key]
-        return rebuild(hf.template, [z3.Select(p, obj.z) for p in hf.parts])
+        return rebuild(hf.template, [z3.simplify(z3.Select(p, obj.z)) for p in hf.parts])
 
     def heap_parts(self, cls: str, name: str, old=False):
         key = self.eng.field_owner(cls, name)
         if old:
-            if key not in self.old_heap:
-                hf = self.eng.heap_field(self.st, cls, name)
-                self.old_heap[key] = HeapField(hf.ty, list(hf.parts), hf.template)
             return self.old_heap[key].parts
         return self.eng.heap_field(self.st, cls, name).parts
 
@@ -91,11 +86,8 @@ class LoopCtx(Ctx):
 
     def pre_field(self, obj: VScalar, name: str) -> V:
         key = self.eng.field_owner(obj.ty.name, name)
-        if key not in self.pre_heap:
-            hf = self.eng.heap_field(self.st, obj.ty.name, name)
-            self.pre_heap[key] = HeapField(hf.ty, list(hf.parts), hf.template)
         hf = self.pre_heap[key]
-        return rebuild(hf.template, [z3.Select(p, obj.z) for p in hf.parts])
+        return rebuild(hf.template, [z3.simplify(z3.Select(p, obj.z)) for p in hf.parts])
 
 
 @dataclass
@@ -164,7 +156,11 @@ class Registry:
     def subscript(self, eng, st, cont, key, node):
         return None
 
-    def method_contract(self, eng, cls: str, name: str) -> Optional[Contract]:
+    def method_contract(self, eng, cls: str, name: str, nargs: int = None) -> Optional[Contract]:
+        if nargs is not None:
+            c = self.method_contract(eng, cls, "%s[%d iterables]" % (name, nargs))
+            if c is not None:
+                return c
         todo = [cls]
         seen = set()
         while todo:
@@ -317,6 +313,14 @@ def apply_contract(eng: Engine, st: State, c: Contract, args: List[V], kwargs: D
             argmap["*args"] = VTuple(list(args[len(names):]))
     if self_obj is not None:
         argmap["self"] = self_obj
+    for name, ty in list(c.params.items()):
+        if ty.kind == "varargs":
+            items = argmap.get(name)
+            items = items.items if isinstance(items, VTuple) else []
+            if len(items) != len(ty.args):
+                raise Unsupported("contract %s covers %d star-arguments, call passes %d" % (c.key, len(ty.args), len(items)), node)
+            for nm, it in zip(ty.args, items):
+                argmap[nm] = it
     if c.apply is not None:
         return c.apply(eng, st, argmap, node)
     params: Dict[str, V] = {}
@@ -324,11 +328,18 @@ def apply_contract(eng: Engine, st: State, c: Contract, args: List[V], kwargs: D
         if name == "self" and self_obj is not None:
             params[name] = self_obj
             continue
+        if ty.kind == "varargs":
+            continue
         if name not in argmap:
             if name == "self" and c.is_init:
                 continue
             raise Unsupported("contract %s: argument %s not supplied" % (c.key, name), node)
-        params[name] = eng.coerce(argmap[name], ty, st, node)
+        a = argmap[name]
+        if ty.kind == "opt" and not isinstance(a, VOpt):
+            # contracts see optional parameters case-split, exactly as at verification time: None or the value
+            params[name] = a if isinstance(a, VNone) else eng.coerce(a, ty.args[0], st, node)
+        else:
+            params[name] = eng.coerce(a, ty, st, node)
     for name, v in argmap.items():
         params.setdefault(name, v)
     results = []
@@ -434,6 +445,22 @@ def entry_variants(eng: Engine, c: Contract, fn: ast.FunctionDef):
                 v = fresh(eng.S, ty, name, f2)
                 nxt.append((dict(pm, **{name: v}), f2, tag))
         variants = nxt
+    if vararg is not None:
+        ty = c.params.get(vararg)
+        nxt = []
+        for (pm, facts, tag) in variants:
+            f2 = list(facts)
+            items = []
+            pm2 = dict(pm)
+            for nm in (ty.args if ty is not None and ty.kind == "varargs" else ()):
+                v = fresh(eng.S, c.params[nm], nm, f2)
+                pm2[nm] = v
+                items.append(v)
+            pm2[vararg] = VTuple(items)
+            nxt.append((pm2, f2, tag))
+        variants = nxt
+    if kwarg is not None:
+        variants = [(dict(pm, **{kwarg: VPy(("dictlit", []))}), facts, tag) for (pm, facts, tag) in variants]
     return variants
 
 
@@ -449,6 +476,7 @@ def generate_vcs(reg: Registry, c: Contract, S: Optional[Sorts] = None) -> Tuple
     for (params, facts, tag) in entry_variants(eng, c, fn):
         info["variants"] += 1
         st = State(S)
+        eng.init_heap(st)
         for f in facts:
             st.assume(f)
         for name, ty in c.ghost_params.items():
@@ -462,6 +490,9 @@ def generate_vcs(reg: Registry, c: Contract, S: Optional[Sorts] = None) -> Tuple
         elif c.cls and "self" in params:
             tags = [reg.classes[k].tag for k in eng.subclasses(c.cls)]
             st.assume(z3.Or(*[eng.tag_of(st, params["self"]) == t for t in tags]))
+        for pv in params.values():
+            if isinstance(pv, VScalar) and pv.ty.kind == "obj" and not (c.is_init and pv is params.get("self")):
+                st.assume(eng.allocated(st, pv))
         old_heap = st.heap_snapshot()
         eng.current_params = params
         eng.entry_heap = old_heap
@@ -657,7 +688,7 @@ def discharge_long(S: Sorts, vc: VC, timeout_ms: int, use_cvc5: bool = True) -> 
     if r == "unsat":
         return VCResult(vc.name, "unsat", "z3", dt, path=vc.path, detail=detail)
     if r == "unknown" and use_cvc5:
-        r2, dt2, info = cvc5_check(solver, 60)
+        r2, dt2, info = cvc5_check(solver, max(10, timeout_ms // 1000))
         dt += dt2
         detail += "; cvc5: %s" % r2
         if r2 == "unsat":
